@@ -177,10 +177,13 @@ class Vertex(base.BaseObject):
         -- linked, unlinked, or anything else, to maintain cache integrity and
         prevent stale data.
         """
+        # drop cached data even while caching is switched off: the graph may be
+        # modified now and caching re-enabled later, and the entries would then
+        # be stale
+        self.__qa_nb_cache = {}
         if not self.NEIGHBOR_CACHING:
             return
         self._CACHE_STATS[self.uid][2] += 1
-        self.__qa_nb_cache = {}
 
     def _qa_neighbors_insert(self, answer, *args):
         """
